@@ -23,6 +23,8 @@ PackageOK(r) ==
   /\ (r.kind = "odt" => {"content.xml", "styles.xml", "meta.xml", "settings.xml"} \subseteq {r.manifest[i] : i \in 1 .. Len(r.manifest)})
   \* every asset the main document references is in the package (when the asset files can be read: directory given, file exists)
   /\ (r.readable => \A i \in 1 .. Len(r.assetrefs) : (AssetDir(r.kind) \o r.assetrefs[i]) \in Names(r))
+  \* ... each picture that can be read is stored, whatever became of the pictures before it (one that cannot be read does not end the copying)
+  /\ (r.kind \in {"epub", "odt", "bundlezip"} => r.nassets >= r.nreadable)
   \* ... and none is still referred to by the name it had outside the package
   /\ (r.readable /\ r.kind \in {"epub", "odt", "bundlezip"} => r.rawrefs = <<>>)
   \* and every asset member is one the main document references
